@@ -131,6 +131,33 @@ func wideOne(l *mc.Local, c wideCase) {
 					}
 				}
 			}
+		case "BitMatrix.Xor":
+			// Size is the WIDTH; heights 3; row y of the mask is handed to Xor as the BitArray the API takes
+			// (BitMatrix.Xor takes another matrix of the same size): non-periodic contents on both sides
+			w, h := c.Size, 3
+			a, _ := gozxing.NewBitMatrix(w, h)
+			b, _ := gozxing.NewBitMatrix(w, h)
+			m := &mmodel{w, h, make([]bool, w*h)}
+			for y := 0; y < h; y++ {
+				for x := 0; x < w; x++ {
+					va := (x*x+7*y+x/13+c.Start)%5 < 2
+					vb := (x*3+y*11+x/29+x*x/97+c.Stop)%7 < 3
+					if va {
+						a.Set(x, y)
+					}
+					if vb {
+						b.Set(x, y)
+					}
+					m.b[y*w+x] = va != vb
+				}
+			}
+			if e := a.Xor(b); e != nil {
+				bad("Xor of equally sized matrices refused: " + e.Error())
+				return
+			}
+			if d := lightMatrix(a, m); d != "" {
+				bad(d)
+			}
 		case "BitArray.SetRange":
 			r := gozxing.NewBitArray(c.Size)
 			m := &amodel{make([]bool, c.Size)}
@@ -231,6 +258,19 @@ func runWide() {
 				}
 			}
 		}
+	}
+	// BitMatrix.Xor with non-periodic contents on every width 1..520 (row sizes of 1..17 words: every
+	// residue of the word count modulo 4 and 8 several times) and around the block marks
+	for w := 1; w <= 520; w++ {
+		cases = append(cases, wideCase{"wide", "BitMatrix.Xor", w, w % 5, w % 7})
+	}
+	for _, w := range []int{1000, 1023, 1024, 1025, 2047, 2048, 2049, 8191, 8192, 8193} {
+		cases = append(cases, wideCase{"wide", "BitMatrix.Xor", w, 1, 2})
+	}
+	// the widths between the history search (<= 130) and the block marks (>= 8191): every width
+	// 131..520 through the region / rectangle / Rotate180 / FlipAll case and the array cases
+	for w := 131; w <= 520; w++ {
+		cases = append(cases, wideCase{"wide", "BitMatrix.SetRegion", w, w / 3, w - 5}, wideCase{"wide", "BitArray.SetRange", w, w / 4, w - 3}, wideCase{"wide", "BitArray.AppendBitArray", w, w / 5, w - 1})
 	}
 	// tall matrices: more than 2^16 ROWS (a row index or a word offset divided by the row size)
 	for _, h := range []int{65535, 65536, 65537, 70000, 131073} {
